@@ -35,3 +35,100 @@ PROPS["C12"] = {
              oracle="Ok <=> permutation of 0..n; result is the inverse", timeout=300),
     ],
 }
+
+def _c09():
+    hs = []
+    lay = {0: "[NN1,Zero1,NN2]", 1: "[Exp,NN1]", 2: "[NN4]", 3: "[Zero2,NN2]", 4: "[NN1,Pow]", 5: "[NN2,SOC2]",
+           6: "[NN1,NN0,SOC1,NN2]", 7: "[SOC3,Zero1]"}
+    bnd = {0: "1e20", 1: "100", 2: "1e-3", 3: "1e300", 4: "1e20", 5: "100", 6: "1e20", 7: "1e20"}
+    pat = {0: "mixed", 1: "dense", 2: "empty first col", 3: "empty last col", 4: "dense", 5: "mixed", 6: "dense"}
+    core = {0, 1, 6}
+    for l in range(8):
+        q = dict(tier="quick") if l in core else dict(tier="quick", rot=True)
+        hs.append(dict(name="c09::c09_map_l%d" % l, nofloat=True, timeout=600, **q,
+                       unit="Presolver::new -> make_reduction_map; set_infinity/get_infinity", inst="f64 (all bit patterns for b)",
+                       bounds="cones=%s, all f64 b[4] incl NaN/inf, bound=%s (concrete)" % (lay[l], bnd[l]),
+                       oracle="dropped <=> (row in NN cone and b>=bound) [band of 16 eps below bound undetermined]; mreduced; map None iff nothing dropped"))
+        if l == 7:
+            continue
+        hs.append(dict(name="c09::c09_reduce_l%d" % l, timeout=1200, mem_gb=20, **q,
+                       unit="Presolver::presolve (reduce_A_b, reduce_cones), CscMatrix::select_rows, VectorMath::select", inst="f64 small ints",
+                       bounds="cones=%s, A 4x2 pattern '%s', all 16 drop masks (concrete loop), symbolic values" % (lay[l], pat[l]),
+                       oracle="A,b rows deleted in order; A canonical; nn cones shrink, emptied cones vanish, others unchanged; dims sum to mreduced"))
+        hs.append(dict(name="c09::c09_reverse_l%d" % l, nofloat=True, timeout=600, **q,
+                       unit="Presolver::reverse_presolve", inst="f64 all bit patterns", bounds="cones=%s, symbolic drop mask" % lay[l],
+                       oracle="lengths = user's; dropped rows z=0, s=bound at construction; kept rows in order; x copied"))
+    for nm, b in (("c09_reduce_l0_dense", "cones=[NN1,Zero1,NN2], dense A"), ("c09_reduce_l6_mixed", "cones=[NN1,NN0,SOC1,NN2], mixed A")):
+        hs.append(dict(name="c09::" + nm, tier="thorough", timeout=1800, mem_gb=20, unit="Presolver::presolve", inst="f64 small ints",
+                       bounds=b + ", 16 masks", oracle="as c09_reduce"))
+    hs.append(dict(name="c09::c09_bound_capture", nofloat=True, timeout=600, unit="Presolver::new, set_infinity", inst="f64 all bit patterns",
+                   bounds="symbolic bound and later value", oracle="stored bound == bound in force at construction"))
+    hs.append(dict(name="c09::c09_infbound", nofloat=True, unit="set_infinity/get_infinity/default_infinity", inst="f64 all bit patterns", bounds="-",
+                   oracle="round trip; default is 1e20", timeout=300))
+    return hs
+
+
+PROPS["C09"] = {
+    "feature": "c09",
+    "bounds_note": "m = 4 rows; 8 enumerated cone layouts over {Zero,NN,SOC,Exp,Pow} incl. empty/singleton cones; map: all f64 b incl. NaN/inf, bound in {1e20,100,1e-3,1e300}; reduce: 4 enumerated 4x2 patterns x all 16 drop masks, symbolic values; reverse: symbolic mask, all f64 iterates",
+    "outside": "end-to-end: that the remaining entries solve the hand-reduced problem (needs the IPM); PSD cones; m > 4; symbolic bound in the drop comparison (53-bit symbolic multiplier does not finish)",
+    "assumptions": ["reverse_presolve harness over-allocates the reduced s,z to length 4 (entries beyond mreduced are never read by the real code)",
+                    "sparsity patterns / drop masks of the reduce harnesses are enumerated, not symbolic (CBMC needs concrete allocation sizes)"],
+    "harnesses": _c09(),
+}
+
+import os, re
+def _probe():
+    try:
+        src = open(os.path.join(os.path.dirname(os.path.abspath(__file__)), "kani/src/probe.rs")).read()
+    except OSError:
+        return []
+    return [dict(name="probe::" + n, timeout=300, mem_gb=20, no_cover_ok=True) for n in re.findall(r"pub fn (p_\w+)\(", src)]
+PROPS["PROBE"] = {"feature": "probe", "harnesses": _probe()}
+
+_VERDICT_UNIT = "DefaultInfo::check_termination (check_convergence_full, check_convergence, is_solved, is_primal_infeasible, is_dual_infeasible)"
+_H_VERDICT = {
+    "c01_verdict_solved": dict(nofloat=True, timeout=600, unit=_VERDICT_UNIT, inst="f64, every bit pattern incl. NaN/inf/subnormal",
+        bounds="all info fields, all tolerances, any max_iter/time_limit/iter; prior status Unsolved",
+        oracle="Solved <=> ktratio<=1 & res_primal<tol_feas & res_dual<tol_feas & (gap_abs<tol_gap_abs | gap_rel<tol_gap_rel); return <=> status!=Unsolved; only status changes"),
+    "c02_verdict_infeasible": dict(nofloat=True, timeout=600, unit=_VERDICT_UNIT, inst="f64 all bit patterns", bounds="as c01_verdict_solved",
+        oracle="PrimalInfeasible <=> !solved & ktratio>1000/tol_ktratio & b'z<-tol_abs & res_primal_inf<-tol_rel*b'z; dual analogue, primal first"),
+    "c04_verdict_limits": dict(nofloat=True, timeout=900, unit=_VERDICT_UNIT, inst="f64 all bit patterns", bounds="as c01_verdict_solved",
+        oracle="InsufficientProgress <=> documented stall/divergence test; else MaxIterations <=> max_iter==iterations; else MaxTime <=> solve_time>time_limit; else Unsolved"),
+    "c03_almost": dict(nofloat=True, timeout=900, unit="DefaultInfo::post_process -> check_convergence_almost", inst="f64 all bit patterns",
+        bounds="all 11 prior statuses, all fields and reduced tolerances",
+        oracle="status rewritten only from {NumericalError,InsufficientProgress,MaxIterations,MaxTime}, only to Almost*, only if the reduced test holds"),
+    "c03_rollback": dict(nofloat=True, timeout=600, unit="DefaultInfo::save_prev_iterate / reset_to_prev_iterate, DefaultVariables::copy_from", inst="f64 all bit patterns",
+        bounds="n=m=2", oracle="six info fields and x,s,z,tau,kappa restored bit-for-bit"),
+    "c01_unscale": dict(timeout=900, unit="DefaultVariables::unscale (+ DefaultProblemData::new to build the data object)", inst="GF(13) (exact field; all values)",
+        bounds="n=m=2, arbitrary d,dinv,e,einv,c,tau,kappa in the field", oracle="x=(x*d)/tau, z=(z*e)/(c tau), s=(s*einv)/tau; kappa instead of tau iff infeasible (cross-multiplied)"),
+    "c01_post_process_fp": dict(timeout=900, unit="DefaultSolution::post_process -> DefaultVariables::unscale", inst="GF(13)",
+        bounds="n=m=2, 7 non-infeasible statuses", oracle="returned x,z,s are the unscaled iterate; objectives copied"),
+    "c03_solution_post_process": dict(nofloat=True, timeout=900, unit="DefaultSolution::post_process / finalize, SolverStatus::is_infeasible, DefaultVariables::unscale", inst="f64 all bit patterns",
+        bounds="n=m=2, all 11 statuses, no presolve, identity scaling", oracle="status/iterations/residuals/time copied; obj NaN <=> infeasible status else = cost_primal/cost_dual; vectors returned"),
+}
+
+def _pick(names):
+    return [dict(name="verdict::" + n, **_H_VERDICT[n]) for n in names]
+
+PROPS["C01"] = {
+    "feature": "c01",
+    "bounds_note": "verdict logic: every f64 bit pattern of every field and tolerance; unscale/post-process: n=m=2",
+    "outside": "that the interior-point iteration reaches an iterate satisfying the test; rounding of residual norms; cone membership of the final iterate (see C07/C15); PSD cones; faer backend",
+    "assumptions": ["check_termination is entered with status == Unsolved (loop invariant of Solver::solve, decided by the C04 loop harness)"],
+    "harnesses": _pick(["c01_verdict_solved", "c01_unscale", "c01_post_process_fp", "c03_solution_post_process"]),
+}
+PROPS["C02"] = {
+    "feature": "c02",
+    "bounds_note": "every f64 bit pattern; n=m=2 for the vectors",
+    "outside": "that a certificate is found; numerical size of A'z; membership of z in K*",
+    "assumptions": PROPS["C01"]["assumptions"],
+    "harnesses": _pick(["c02_verdict_infeasible", "c03_solution_post_process", "c01_unscale"]),
+}
+PROPS["C03"] = {
+    "feature": "c03",
+    "bounds_note": "every f64 bit pattern; n=m=2 for the vectors",
+    "outside": "agreement of the reported residual figures with an independent recomputation from the returned point (floating-point norms); chordal decomposition",
+    "assumptions": [],
+    "harnesses": _pick(["c03_almost", "c03_rollback", "c03_solution_post_process"]),
+}
